@@ -16,7 +16,10 @@ CHECK = {
                   "exploration, exhaustive over the lattice in the thorough tier and pairwise-covering in the quick "
                   "tier.",
     "level_note": "One default thread schedule per configuration; problem size fixed at 4^3 cells in 2x2x1 subgrids, "
-                  "4 hydro steps, 2 photoionization iterations. Leak checking off.",
+                  "4 hydro steps, 2 photoionization iterations. Leak checking off. Assumption: the task-based RHD "
+                  "modes require a discrete source distribution (do_simulation dereferences it unconditionally), so "
+                  "'PhotonSourceDistribution: type: None' is outside the property's precondition; three such probes are "
+                  "run and recorded in extra.probes_not_judged without being judged.",
     "quick_deadline": 90,
     "thorough_deadline": 1200,
     "parts": [
